@@ -511,12 +511,7 @@ impl<'a> Parser<'a> {
                 // `x not OP y` negates `x OP y`, and OP keeps its own precedence: look at
                 // the operator after `not` before consuming anything, so that an operand
                 // of a tighter operator leaves the whole `not OP` to its caller.
-                let l_bp = match self.tokenizer.peek()? {
-                    Token::Operator(op, _) if crate::keyword::is_infix_op(op) => {
-                        InfixOpManager::new().get_precidence(op).0
-                    }
-                    _ => return Err(Error::ExpectBinOpToken),
-                };
+                let (l_bp, _) = self.negated_op_precidence()?;
                 if l_bp < exec_prec {
                     return Ok(lhs);
                 }
@@ -547,8 +542,14 @@ impl<'a> Parser<'a> {
             self.next()?;
             let mut rhs = self.parse_primary()?;
 
-            let (cur_l_bp, _) = self.get_token_precidence();
-            if self.tokenizer.cur_token.is_binop_token() && r_bp < cur_l_bp {
+            let (cur_l_bp, _) = if self.tokenizer.cur_token.is_not_token() {
+                self.negated_op_precidence()?
+            } else if self.tokenizer.cur_token.is_binop_token() {
+                self.get_token_precidence()
+            } else {
+                (-1, -1)
+            };
+            if r_bp < cur_l_bp {
                 rhs = self.parse_op(r_bp, rhs)?;
             }
             lhs = ExprAST::Binary(op, Box::new(lhs), Box::new(rhs));
@@ -556,6 +557,16 @@ impl<'a> Parser<'a> {
                 lhs = ExprAST::Unary("not", Box::new(lhs));
                 is_not = false;
             }
+        }
+    }
+
+    // binding powers of the infix operator that follows the `not` at the cursor
+    fn negated_op_precidence(&self) -> Result<(i32, i32)> {
+        match self.tokenizer.peek()? {
+            Token::Operator(op, _) if crate::keyword::is_infix_op(op) => {
+                Ok(InfixOpManager::new().get_precidence(op))
+            }
+            _ => Err(Error::ExpectBinOpToken),
         }
     }
 
